@@ -9,8 +9,11 @@ func init() {
 	vHarnesses["H_C01_gen"] = H_C01_gen
 	vHarnesses["H_C03_cut"] = H_C03_cut
 	vHarnesses["H_C03_shape"] = H_C03_shape
+	vHarnesses["H_C03_disj"] = H_C03_disj
+	vHarnesses["H_C17_disj"] = H_C17_disj
 	vHarnesses["H_C04_gen"] = H_C04_gen
 	vHarnesses["H_C01_gen2"] = H_C01_gen2
+	vHarnesses["H_C01_shape"] = H_C01_shape
 	vHarnesses["H_C03_gen2"] = H_C03_gen2
 	vHarnesses["H_C04_catch"] = H_C04_catch
 	vHarnesses["H_C09_history"] = H_C09_history
@@ -49,6 +52,12 @@ func H_C01_gen(inst int) {
 	engine.VH_C01_gen(&i.VM, inst)
 }
 
+// H_C01_shape: every parenthesisation of a conjunction of 4..5 filtering goals in 4 contexts (engine.VH_C01_shape).
+func H_C01_shape(inst int) {
+	i := newFull()
+	engine.VH_C01_shape(&i.VM, inst)
+}
+
 // H_C01_gen2 / H_C03_gen2: every program of 1..3 clauses for p/1 from a clause menu (without / with cuts) x 7 queries.
 func H_C01_gen2(inst int) {
 	i := newFull()
@@ -64,6 +73,17 @@ func H_C03_gen2(inst int) {
 func H_C04_gen(inst int) {
 	i := newFull()
 	engine.VH_C04_gen(&i.VM, inst)
+}
+
+// H_C03_disj / H_C17_disj: every parenthesisation of a disjunction / alternation containing one if-then.
+func H_C03_disj(inst int) {
+	i := newFull()
+	engine.VH_C03_disj(&i.VM, inst)
+}
+
+func H_C17_disj(inst int) {
+	i := newFull()
+	engine.VH_C17_disj(&i.VM, inst)
 }
 
 // H_C03_shape: generated family of conjunction shapes with a cut at every position (see engine.VH_C03_shape).
